@@ -14,13 +14,16 @@ NA_PURE = {
     "C20": "relation over pairs of immutable values (__eq__/__hash__); no schedule, clock, fault or peer (DESIGN.md §5 C20)",
 }
 
-TRUSTED = ("Trusted base: the simulator in /verif/sim (virtual-time loop, link model, independent wire codec, reference "
-           "models) and CPython's asyncio scheduler. Pure-python zeroconf from /repo/src is what runs; the Cython build "
-           "and the threaded wrappers are not exercised. A clean batch is sampled evidence, not proof.")
+TRUSTED = ("Trusted base: the simulator in /verif/sim (virtual-time loop that reads one datagram per socket and iteration "
+           "ahead of the due timers like asyncio's selector loop, link model, independent wire codec, reference models) "
+           "and CPython's asyncio scheduler. Pure-python zeroconf from /repo/src is what runs; the Cython build is not "
+           "exercised, real threads are not run (Zeroconf.close() from another thread and the delivery thread of "
+           "ServiceBrowser are modelled cooperatively in C17). A clean batch is sampled evidence, not proof.")
 
 REGRESSION_NOTE = (" Every run first replays the minimised failing histories of the defects repaired so far "
-                   "(/verif/regression/<id>/, DESIGN.md section 14), so a defect that returns is reported by its own "
-                   "history; fault kinds include process stalls (DESIGN.md section 14) where the oracle tolerates lateness.")
+                   "(/verif/regression/<id>/, DESIGN.md sections 14 and 17), so a defect that returns is reported by "
+                   "its own history; fault kinds include process stalls with asyncio-faithful backlog draining (DESIGN.md "
+                   "sections 14 and 17) where the oracle tolerates lateness.")
 
 SIM = "deterministic simulation: virtual-time asyncio loop + simulated multicast link, seeded schedule/fault search, "
 
@@ -31,7 +34,9 @@ CHECKS = {
                 "type, re-cased/unregistered/enumeration names) x known-answer lists around the half-TTL boundary, sent "
                 "from a legacy source port so the complete answer set returns in the unicast reply; the reply is decoded "
                 "independently and compared with an executable registry model (answers exact incl. TTL, additionals "
-                "sound and disjoint). Exploration: the claim is over registry histories and their timing.",
+                "sound and disjoint); everything the responder multicasts later (queued answers) must belong to a service "
+                "registered, in that version, at that instant - also after in-place changes of a ServiceInfo. "
+                "Exploration: the claim is over registry histories and their timing.",
         "technique": SIM + "ModelRegistry comparison per delivered query",
         "design_ref": "DESIGN.md §5 C03",
     },
@@ -39,14 +44,15 @@ CHECKS = {
         "text": "Seeded search over response histories and clock advances (0 ms..hours) delivered to one real instance "
                 "with 1..3 AsyncServiceBrowsers started/cancelled at arbitrary points; invariants checked after every "
                 "delivery, purge and browser start: Added/Removed alternation per (browser, type, instance), "
-                "Added-not-Removed == cached PTR aliases, and the cache already complete inside add_service. "
+                "Added-not-Removed == cached PTR aliases, and the cache already complete inside add_service (listeners look "
+                "the service up from add_service with the pair they were handed). "
                 "Exploration, because the property is a statement over all histories x schedules.",
         "technique": SIM + "invariants at every quiescent point against ModelCache-driven expectations",
         "design_ref": "DESIGN.md §5 C04",
     },
     "C06": {
         "text": "Seeded search over response histories with probe listeners added/removed at arbitrary points (also from "
-                "inside callbacks); every delivered datagram's (new, previous) pairs, their order, exactly-once "
+                "inside callbacks, twice, or when not registered); every delivered datagram's (new, previous) pairs, their order, exactly-once "
                 "delivery, and the cache state visible inside each of the two callbacks are compared with the reference "
                 "cache model (PTR TTL floor, arrival time as creation time, flush only beyond 1000 ms).",
         "technique": SIM + "probe listeners snapshot the cache inside callbacks; compared per datagram with ModelCache",
@@ -56,8 +62,9 @@ CHECKS = {
         "text": "Seeded search over pointer-record histories (TTL 1125..9000 s learned in any order, refreshed, re-cased, "
                 "withdrawn or abandoned) across up to 3 h of virtual time on a real instance with 1..2 browsers "
                 "(delay 1..60 s); the query trace is judged against the per-host reference cache: start-up schedule, "
-                "minimum spacing, justification of every refresh query, and bounded liveness of the 75 %/10 % refresh "
-                "chain for every record left to expire. Exploration over histories x schedules; three scheduler defects "
+                "minimum spacing, justification of every refresh query, and bounded liveness of the 75 %/85 %/95 % refresh "
+                "steps (fractions of the record's own TTL, each at most the delay late) for every record left to expire; "
+                "chatty responders and interleaving steps of several types included. Exploration over histories x schedules; three scheduler defects "
                 "were found this way and repaired.",
         "technique": SIM + "interval oracles on the query trace against ModelCache, hours of virtual time per run",
         "design_ref": "DESIGN.md §5 C10",
@@ -68,14 +75,17 @@ CHECKS = {
                 "legacy source ports) interleaved with honest traffic of two real instances and in-flight corruption; "
                 "oracle: nothing reaches any event-loop exception handler, oversized datagrams have no effect, and after "
                 "the faults stop canary queries (also from the attacker's address) and a canary announcement are served "
-                "within bounded time. Two escaping exceptions were found this way and repaired.",
+                "within bounded time; part of the runs have the library's logger at DEBUG and socket errors reported to "
+                "error_received. Two escaping exceptions were found this way and repaired.",
         "technique": SIM + "fault injection of garbage/corruption into a live instance, loop-exception and bounded-liveness oracles",
         "design_ref": "DESIGN.md §5 C15",
     },
     "C16": {
         "text": "Metamorphic deterministic simulation: every case runs twice from identical seeds and decisions, once as "
                 "is and once with a seed-chosen subset (often all) of the deliveries to the real instances duplicated "
-                "back to back on the same socket; transmission traces (time, destination, bytes) and callback logs must "
+                "back to back on the same socket (read in successive loop iterations, with whatever reaches the instance's "
+                "other sockets in between; instances with one socket, several sockets, dual-stack, or no socket in the "
+                "mDNS group; repeated datagrams; application handlers that raise); transmission traces (time, destination, bytes) and callback logs must "
                 "be equal, the stated unicast exemption aside. Runs are compared exactly up to the first duplicated "
                 "QU-question query (known finding D7 from there on); half of the scenarios contain no QU question and "
                 "are compared in full.",
@@ -86,7 +96,8 @@ CHECKS = {
         "text": "Seeded search over shutdown instants: AsyncZeroconf.async_close() injected at a seed-chosen loop-iteration "
                 "index or instant (probing, announcing, queued answers, deferred truncated queries, browser start-up and "
                 "refresh timers, pending lookups, purge timer all in flight), or Zeroconf.close() from a cooperatively "
-                "modelled non-loop thread; followed by up to 2 h of virtual time with incoming traffic and a second "
+                "modelled non-loop thread, with AsyncServiceBrowsers and thread-based ServiceBrowsers (delivery thread "
+                "stepped by the simulator, slow handlers, join time-outs); followed by up to 2 h of virtual time with incoming traffic and a second "
                 "close. Oracle: no transmission and no callback after close returned, nothing in the loop exception "
                 "handler for the whole run, three complete goodbyes for everything registered, idempotent second close.",
         "technique": SIM + "crash-point style injection of close at arbitrary event indices, trace/callback oracle",
@@ -106,13 +117,15 @@ CHECKS = {
                 "arbitrary source addresses and ports, by multicast or unicast, against a real responder in single-, multi- "
                 "and dual-stack socket layouts, arriving at record ages below/at/above a quarter TTL; every datagram the "
                 "responder emits is decoded independently and checked for destination class per answer (unicast / "
-                "immediate multicast), sending socket, id/question echo, flush bits and multicast header.",
+                "immediate multicast), sending socket, the multicast group of the querier's address family, id/question echo "
+                "(root-name questions included), flush bits and multicast header.",
         "technique": SIM + "per-query expected unicast / immediate-multicast sets from ModelRegistry + per-host ModelCache",
         "design_ref": "DESIGN.md §5 C11",
     },
     "C12": {
         "text": "Seeded search over arrival schedules of 1..6 queries on the boundary grid (0/20/120/500/1000/1120 ms +-1) and "
-                "truncated packet trains (1..4 packets, several sources, continuation before/at/after the hold timer), with "
+                "truncated packet trains (1..4 packets, several sources incl. legacy ports and twin trains of two queriers, "
+                "continuation before/at/after the hold timer), with "
                 "the library's jitter draws seeded or forced to min/max; every multicast answer on the trace must lie in "
                 "the window of a justifying delivered query (immediate, 20..500 ms, or >= 1 s after the last sighting and "
                 "<= 1.2 s after the query) and every expected answer must appear inside its window; ambiguous timer/packet "
@@ -123,7 +136,8 @@ CHECKS = {
     "C13": {
         "text": "Seeded search over cache contents (0..400 pre-loaded pointer records and SRV/TXT/address records at ages "
                 "around half TTL), relative start timings of several askers of one question (0/1/998/999/1000/1001 ms) "
-                "inside one instance and across 1..3 real instances, forced QU/QM types and lookup timeouts; every query "
+                "inside one instance and across 1..3 real instances, scripted queriers on mDNS and legacy ports (also lone "
+                "truncated packets and byte-identical repeats), forced QU/QM types and lookup timeouts; every query "
                 "datagram is decoded independently and its known-answer list, remaining TTLs, TC continuation, QU/QM "
                 "progression, spacing, and presence/absence of each question are judged against the per-host reference "
                 "cache and question-history model.",
@@ -134,7 +148,7 @@ CHECKS = {
         "text": "Seeded search over cache states of the looked-up instance (none/some/all of SRV, TXT, A, AAAA; fresh, stale, "
                 "expired-but-unpurged; several addresses; two SRV generations) x arrival times of the missing records "
                 "relative to the query schedule and to the timeout (+-1 ms) x timeouts 200 ms..10 s x 1..3 concurrent "
-                "lookups; oracle on return time, success iff an address is known, provenance of every returned field from "
+                "lookups x process stalls across the deadline; oracle on return time, success iff an address is known, provenance of every returned field from "
                 "records the reference cache held unexpired during the lookup, silence when the cache suffices and "
                 "QU-then-QM otherwise.",
         "technique": SIM + "provenance oracle against the per-host ModelCache mutation log, reactive scripted responder",
@@ -145,7 +159,9 @@ CHECKS = {
                 "browsers before/during/after registration, register/update/unregister/close/crash/restart at arbitrary "
                 "virtual times) x delivery schedules (per-receiver delay 0..100 ms, duplication, reordering) x exactly one "
                 "dropped datagram (position sampled, and enumerated over a fixed scenario) x the library's jitter; bounded "
-                "liveness oracle 17 s after the last change plus resolution of lookups started inside add_service.",
+                "liveness oracle 17 s after the last change plus resolution of lookups started inside add_service (withdrawn "
+                "addresses may be resolved for 1.5 s only); a 'late browser' flavour starts browsers 30 s .. 73 min after "
+                "the last change.",
         "technique": SIM + "single-loss fault enumeration/sampling, bounded-liveness oracle after faults stop",
         "design_ref": "DESIGN.md §5 C07",
     },
@@ -161,7 +177,8 @@ CHECKS = {
     "C08": {
         "text": "Seeded search over unregister/close timings relative to queued answers (aggregation queue, 1 s "
                 "protected queue, immediate replies) on a real responder; trace oracle: three complete goodbyes, then no "
-                "positive-TTL copy of a withdrawn record until the name is registered again. Exploration is the right "
+                "positive-TTL copy of a withdrawn record (judged by name, whatever version a queued answer was built from) until "
+                "the name is registered again; in-place updates and several unregisters before a close included. Exploration is the right "
                 "level: the property is a statement over schedules and only fails for particular query/unregister "
                 "interleavings.",
         "technique": "deterministic simulation: virtual-time asyncio loop + simulated multicast link, seeded schedule/fault search, trace oracle, delta-debugged replay files",
